@@ -212,7 +212,16 @@ def _vary_here(draw, s):
         ops = ["relaxed", "add-key"]
         if s["entries"]:
             ops += ["optional", "drop-key", "replace-member"]
+        mixed = len({e["opt"] for e in s["entries"]}) == 2
+        if mixed:
+            ops += ["swap-optional", "swap-optional"]
         op = draw(st.sampled_from(ops))
+        if op == "swap-optional":
+            # the optional flag moves from one key to another (as many optional keys as before)
+            i = draw(st.sampled_from([j for j, e in enumerate(s["entries"]) if e["opt"]]))
+            k = draw(st.sampled_from([j for j, e in enumerate(s["entries"]) if not e["opt"]]))
+            s["entries"][i]["opt"], s["entries"][k]["opt"] = False, True
+            return s
         if op == "relaxed":
             s["relaxed"] = not s.get("relaxed")
         elif op == "add-key":
